@@ -194,10 +194,13 @@ def family_section(ctx):
     sq = lambda x, d: [[(Fr(x), Fr(0), "line"), (Fr(x + d), Fr(0), "line"), (Fr(x + d), Fr(d), "line"), (Fr(x), Fr(d), "line")]]
     one = (Fr(1), Fr(0), Fr(0), Fr(1))
     FNS = ["compileInterpolatableTTFs", "compileInterpolatableTTFsFromDS", "compileInterpolatableOTFsFromDS", "compileVariableTTF", "compileVariableCFF2"]
-    for i in range(ctx.budget(10, 40)):
+    for i in range(ctx.budget(25, 50)):
         lib = ["ufoLib2", "defcon"][i % 2]
         fn = FNS[i % 5]
-        skip_kind = ["unreferenced", "none", "component", "unreferenced-by-argument"][(i // 5) % 4]
+        # "ufo-lib-only": the masters' own libs name `b`, the designspace lib has no such key -- a designspace build then
+        # exports every glyph (the documented rule: the designspace lib alone decides), a build from a font list skips `b`
+        skip_kind = ["unreferenced", "none", "component", "unreferenced-by-argument", "ufo-lib-only"][(i // 5) % 5]
+        from_ds = fn != "compileInterpolatableTTFs"
 
         def master(k):
             d = 10 * k
@@ -207,16 +210,18 @@ def family_section(ctx):
                   {"name": "zeta", "unicodes": [0x3B6, 0x1D6C7], "width": Fr(530 + d), "contours": sq(5, 70 + d), "components": [], "anchors": []},
                   {"name": "d", "unicodes": [0x64], "width": Fr(540 + d), "contours": [], "anchors": [],
                    "components": [("a", one + (Fr(3 + d), Fr(0)))] + ([("b", one + (Fr(200), Fr(0)))] if skip_kind == "component" else [])}]
-            lb = {"public.skipExportGlyphs": ["b"]} if skip_kind in ("unreferenced", "component") else {}
+            lb = {"public.skipExportGlyphs": ["b"]} if skip_kind in ("unreferenced", "component", "ufo-lib-only") else {}
             return {"glyphs": gl, "glyphOrder": ["c", "b", "ghost", "a", "c"], "lib": lb, "kerning": {}, "groups": {},
                     "info": {"familyName": "Fam", "styleName": "M%d" % k, "unitsPerEm": 1000, "ascender": 800, "descender": -200}}
         masters = [master(0), master(2)]
         ds, fonts = dsgen.make_designspace(rng, masters, lib)
-        kw = {"skipExportGlyphs": ["b"]} if skip_kind == "unreferenced-by-argument" else {}
+        # the argument is documented for font lists only (designspace builds: "the designspace lib alone decides"), so it is
+        # not passed to -- and nothing is demanded of -- the designspace functions
+        kw = {"skipExportGlyphs": ["b"]} if skip_kind == "unreferenced-by-argument" and not from_ds else {}
         if skip_kind in ("unreferenced", "component") and "FromDS" in fn or fn.startswith("compileVariable"):
             if skip_kind in ("unreferenced", "component"):
                 ds.lib["public.skipExportGlyphs"] = ["b"]
-        skipped = {"b"} if skip_kind != "none" else set()
+        skipped = {"b"} if skip_kind != "none" and not (skip_kind in ("ufo-lib-only", "unreferenced-by-argument") and from_ds) else set()
         case = {"function": fn, "lib": lib, "skip": skip_kind, "options": jsonable(kw), "font": jsonable(masters[0])}
         ctx.count(); ctx.klass("family: %s / skip %s" % (fn, skip_kind)); ctx.nontriv(("fam", i, ctx.scale))
         try:
